@@ -4,6 +4,7 @@
 
 package strategy
 
+//@ sumfield Info.Capacity
 //@ heapview (*infoHeap) = self.infos
 //@ heapview (*infoHeapForGlobalStrategy) = *self
 
@@ -23,6 +24,14 @@ package strategy
 //@   ensures[C01.each-cap]    err == nil ==> forall i :: 0 <= i && i < len(infos) && infos[i].Nodename in result0 ==> need <= infos[i].Capacity
 //@   ensures[C01.each-count]  err == nil ==> card(result0) == (limit == 0 ? len(infos) : limit)
 //@   ensures[C01.each-refuse] err != nil ==> result0 == nil
+//@   # EACH uses the nodes with the most capacity: every selected record has at least the capacity of every unselected one
+//@   ensures[C03.each-largest] err == nil ==> forall a, b :: 0 <= a && a < len(infos) && 0 <= b && b < len(infos)
+//@                               && infos[a].Nodename in result0 && !(infos[b].Nodename in result0) ==> infos[a].Capacity >= infos[b].Capacity
+//@   # refused exactly when fewer than limit' records have capacity >= need; on the records ordered by capacity
+//@   # (descending, which is how the function leaves infos) that is: the limit'-th record is too small or missing
+//@   ensures[C02.each-iff] let k == (limit == 0 ? len(infos) : limit) ::
+//@                               (err == nil) <==> (k >= 1 && k <= len(infos) && infos[k-1].Capacity >= need)
+//@   ensures[C02.each-sorted] len(infos) >= (limit == 0 ? len(infos) : limit) ==> forall a, b :: 0 <= a && a < b && b < len(infos) ==> infos[a].Capacity >= infos[b].Capacity
 //@   loop 1:
 //@     invariant forall a, b :: 0 <= a && a < b && b < len(infos) ==> infos[a].Nodename != infos[b].Nodename
 //@     invariant 1 <= limit && limit <= len(infos) && forall k :: 0 <= k && k < limit ==> infos[k].Capacity >= need
@@ -30,6 +39,7 @@ package strategy
 //@     invariant forall k :: 0 <= k && k <= rangeindex ==> infos[k].Nodename in deployMap
 //@     invariant forall n string :: n in deployMap ==> deployMap[n] == need
 //@     invariant card(deployMap) == rangeindex + 1 && fresh(deployMap) && deployMap != nil
+//@     invariant[C03,C02] forall a, b :: 0 <= a && a < b && b < len(infos) ==> infos[a].Capacity >= infos[b].Capacity
 
 //@ func FillPlan
 //@   requires validInfos(infos, need, limit) && len(infos) <= 1048576
@@ -41,6 +51,12 @@ package strategy
 //@                               && infos[i].Nodename == n && infos[i].Count + infos[i].Capacity >= need
 //@                               && result0[n] == max(need - infos[i].Count, 0) && result0[n] <= infos[i].Capacity
 //@   ensures[C01.fill-count]  result0 != nil ==> card(result0) == (limit == 0 ? len(infos) : limit)
+//@   # FILL prefers nodes that already run more instances: a selected record never runs fewer instances than an
+//@   # eligible record that was passed over
+//@   ensures[C03.fill-prefers] result0 != nil ==> forall a, b :: 0 <= a && a < len(infos) && 0 <= b && b < len(infos)
+//@                               && infos[a].Nodename in result0 && !(infos[b].Nodename in result0)
+//@                               && infos[b].Count + infos[b].Capacity >= need ==> infos[a].Count >= infos[b].Count
+//@   ensures[C02.fill-short] len(infos) < (limit == 0 ? len(infos) : limit) ==> result0 == nil && err != nil
 //@   loop 1:
 //@     invariant forall a, b :: 0 <= a && a < b && b < len(infos) ==> infos[a].Nodename != infos[b].Nodename
 //@     invariant forall k :: 0 <= k && k < len(infos) ==> infos[k].Capacity >= 0 && 0 <= infos[k].Count && infos[k].Count <= 4294967296
@@ -50,13 +66,27 @@ package strategy
 //@     invariant (limit >= 1 || len(infos) == 0) && card(deployMap) + limit == (old(limit) == 0 ? len(infos) : old(limit))
 //@     invariant fresh(deployMap) && deployMap != nil && err == nil
 //@     invariant 0 <= toDeploy && toDeploy <= (rangeindex + 1) * 4294967296
+//@     invariant[C03] forall a, b :: 0 <= a && a < b && b < len(infos) ==> infos[a].Count >= infos[b].Count
+//@     invariant[C03] forall k :: 0 <= k && k <= rangeindex && infos[k].Count + infos[k].Capacity >= need ==> infos[k].Nodename in deployMap
 
 //@ func DrainedPlan
 //@   requires validInfos(infos, need, 0)
+//@   requires[C02] total == min(MaxInt, fsum(infos, Capacity))
 //@   ensures[C01.drained-keys]  err == nil ==> forall n string :: n in result0 ==> exists i :: 0 <= i && i < len(infos)
 //@                                 && infos[i].Nodename == n && 0 <= result0[n] && result0[n] <= infos[i].Capacity
 //@   ensures[C01.drained-total] err == nil ==> msum(result0) == need
 //@   ensures[C01.drained-refuse] err != nil ==> result0 == nil
+//@   # DRAINED completely fills every smaller-capacity node before using a larger one. infosCopy is the function's
+//@   # capacity-ordered copy of the candidates (a permutation of infos by the copy and sort contracts); the rule is
+//@   # stated on it: a record that received instances is preceded only by completely filled records of no larger capacity
+//@   ensures[C03.drained-fill] err == nil ==> forall a, b :: 0 <= a && a < b && b < len(infosCopy)
+//@                               && infosCopy[b].Nodename in result0 ==> infosCopy[a].Capacity <= infosCopy[b].Capacity
+//@                               && infosCopy[a].Nodename in result0 && result0[infosCopy[a].Nodename] == infosCopy[a].Capacity
+//@   ensures[C03.drained-perm] err == nil ==> len(infosCopy) == len(infos)
+//@                               && (forall i :: 0 <= i && i < len(infos) ==> exists k :: 0 <= k && k < len(infosCopy) && infosCopy[k] == infos[i])
+//@                               && (forall k :: 0 <= k && k < len(infosCopy) ==> exists i :: 0 <= i && i < len(infos) && infosCopy[k] == infos[i])
+//@   ensures[C02.drained-iff] (err != nil) <==> (total < need)
+//@   ensures[C02.drained-short] total < need ==> err != nil && result0 == nil
 //@   loop 1:
 //@     invariant 0 <= idx && idx <= len(infosCopy) && len(infosCopy) == len(infos) && fresh(infosCopy) && allocated(infosCopy)
 //@     invariant forall a, b :: 0 <= a && a < b && b < len(infosCopy) ==> infosCopy[a].Nodename != infosCopy[b].Nodename
@@ -65,6 +95,10 @@ package strategy
 //@     invariant need >= 1 && msum(deploy) + need == old(need) && fresh(deploy) && deploy != nil
 //@     invariant forall n string :: n in deploy ==> exists k :: 0 <= k && k < idx && infosCopy[k].Nodename == n
 //@                            && 0 <= deploy[n] && deploy[n] <= infosCopy[k].Capacity
+//@     invariant[C02] need <= fsumr(infosCopy, Capacity, idx, len(infosCopy))
+//@     invariant[C03] forall a, b :: 0 <= a && a < b && b < len(infosCopy) ==> infosCopy[a].Capacity <= infosCopy[b].Capacity
+//@     invariant[C03] forall k :: 0 <= k && k < idx ==> infosCopy[k].Nodename in deploy && deploy[infosCopy[k].Nodename] == infosCopy[k].Capacity
+//@     invariant[C03] forall i :: 0 <= i && i < len(infos) ==> exists k :: 0 <= k && k < len(infosCopy) && infosCopy[k] == infos[i]
 
 //@ # ---------- AUTO (CommunismPlan) ----------
 
@@ -77,11 +111,13 @@ package strategy
 //@   ensures[C01.heap-new-sound] forall k :: 0 <= k && k < len(result.infos) ==> kept(result.infos[k], limit)
 //@                                 && exists i :: 0 <= i && i < len(infos) && infos[i] == result.infos[k]
 //@   ensures[C01.heap-new-distinct] forall a, b :: 0 <= a && a < b && b < len(result.infos) ==> result.infos[a].Nodename != result.infos[b].Nodename
+//@   ensures[C03.heap-new-complete,C02] forall i :: 0 <= i && i < len(infos) && kept(infos[i], limit) ==> exists k :: 0 <= k && k < len(result.infos) && result.infos[k] == infos[i]
 //@   loop 1:
 //@     invariant fresh(dup.infos) && allocated(dup.infos) && dup.limit == limit && len(dup.infos) <= rangeindex + 1
 //@     invariant forall k :: 0 <= k && k < len(dup.infos) ==> kept(dup.infos[k], limit)
 //@                                 && exists i :: 0 <= i && i <= rangeindex && infos[i] == dup.infos[k]
 //@     invariant forall a, b :: 0 <= a && a < b && b < len(dup.infos) ==> dup.infos[a].Nodename != dup.infos[b].Nodename
+//@     invariant[C03,C02] forall i :: 0 <= i && i <= rangeindex && kept(infos[i], limit) ==> exists k :: 0 <= k && k < len(dup.infos) && dup.infos[k] == infos[i]
 
 //@ func CommunismPlan
 //@   requires validInfos(infos, need, limit)
@@ -90,6 +126,14 @@ package strategy
 //@                              && (limit > 0 ==> infos[i].Count + result0[n] <= limit)
 //@   ensures[C01.auto-total] err == nil ==> msum(result0) == need
 //@   ensures[C01.auto-refuse] err != nil ==> result0 == nil
+//@   # AUTO keeps per-node counts even: a node that received an instance never ends more than one above a node
+//@   # that could still have taken one (spare capacity and below the per-node limit)
+//@   ensures[C03.auto-even] err == nil ==> forall a, b :: 0 <= a && a < len(infos) && 0 <= b && b < len(infos)
+//@                               && infos[a].Nodename in result0
+//@                               && infos[b].Capacity - result0[infos[b].Nodename] >= 1
+//@                               && (limit > 0 ==> infos[b].Count + result0[infos[b].Nodename] < limit)
+//@                               ==> infos[a].Count + result0[infos[a].Nodename] <= infos[b].Count + result0[infos[b].Nodename] + 1
+//@   ensures[C02.auto-short] total < need ==> err != nil
 //@   loop 1:
 //@     invariant fresh(iHeap) && fresh(iHeap.infos) && allocated(iHeap) && allocated(iHeap.infos) && iHeap.limit == limit
 //@     invariant hsize(iHeap) == len(iHeap.infos) && hordered(iHeap)
@@ -103,6 +147,11 @@ package strategy
 //@     invariant forall n string :: n in deploy ==> exists i :: 0 <= i && i < len(infos) && infos[i].Nodename == n
 //@                       && 1 <= deploy[n] && deploy[n] <= infos[i].Capacity && deploy[n] <= old(need) - need
 //@                       && (limit > 0 ==> infos[i].Count + deploy[n] <= limit)
+//@     invariant[C03] forall i int, e Info :: 0 <= i && i < len(infos) && infos[i].Nodename in deploy && hcount(iHeap, e) > 0
+//@                       ==> infos[i].Count + deploy[infos[i].Nodename] <= e.Count + 1
+//@     invariant[C03] forall i :: 0 <= i && i < len(infos) && infos[i].Capacity - deploy[infos[i].Nodename] >= 1
+//@                       && (limit > 0 ==> infos[i].Count + deploy[infos[i].Nodename] < limit)
+//@                       ==> exists e Info :: hcount(iHeap, e) > 0 && e.Nodename == infos[i].Nodename
 
 //@ # ---------- GLOBAL (GlobalPlan) ----------
 
